@@ -45,6 +45,53 @@ Proof. unfold mat_close. rewrite forallb_seq. intros H i j Hi Hj. specialize (H 
   - apply (f_equal (fun z => (z + re (B i j))%Qc)) in E1. ring_simplify in E1. exact E1.
   - apply (f_equal (fun z => (z + im (B i j))%Qc)) in E2. ring_simplify in E2. exact E2. Qed.
 
+(* ---------------------------------------------------------------- _update_adjacent as it is now *)
+Lemma In_insert x y l : In x (insert_sorted y l) <-> x = y \/ In x l.
+Proof. induction l as [|a r IH]; simpl. intuition.
+  destruct (y <? a). simpl. intuition.
+  destruct (Nat.eqb_spec y a). subst. simpl. intuition.
+  simpl. rewrite IH. intuition. Qed.
+Lemma In_union x : forall b a, In x (union_sorted a b) <-> In x a \/ In x b.
+Proof. unfold union_sorted. induction b as [|y r IH]; intros a; simpl. intuition.
+  rewrite IH, In_insert. intuition. Qed.
+Lemma In_fold_union x : forall hit r, In x (fold_left union_sorted hit r) <-> In x r \/ exists g, In g hit /\ In x g.
+Proof. induction hit as [|h t IH]; intros r; simpl.
+  - split; [intuition | intros [H | [g [[] _]]]; exact H].
+  - rewrite IH, In_union. split.
+    + intros [[H | H] | [g [Hg Hx]]]; [left; exact H | right; exists h; auto | right; exists g; auto].
+    + intros [H | [g [[<- | Hg] Hx]]]; [left; left; exact H | left; right; exact Hx | right; exists g; auto]. Qed.
+Lemma place_keeps r G : forall l placed g, In g l -> meets g r = false -> In g (place r G l placed).
+Proof. induction l as [|a t IH]; intros placed g Hin Hm; simpl. exact Hin.
+  destruct Hin as [-> | Hin].
+  - rewrite Hm. left. reflexivity.
+  - destruct (meets a r). destruct placed; [apply IH | right; apply IH]; auto. right. apply IH; auto. Qed.
+Lemma place_puts r G : forall l, (exists g, In g l /\ meets g r = true) -> In G (place r G l false).
+Proof. induction l as [|a t IH]; intros [g [Hin Hm]]; simpl. destruct Hin.
+  destruct (meets a r) eqn:Ea. left. reflexivity.
+  destruct Hin as [-> | Hin]. congruence. right. apply IH. exists g. auto. Qed.
+
+Definition covers (m : nat) (adj : list (list nat)) : Prop := forall k, k < m -> exists g, In g adj /\ In k g.
+(* no mode is ever lost (the pre-repair code lost modes: update_adjacent_refuted) *)
+Theorem update_adjacent_covers m adj r : covers m adj -> covers m (update_adjacent adj r).
+Proof. intros H k Hk. destruct (H k Hk) as [g [Hg Hkg]]. unfold update_adjacent.
+  destruct (meets g r) eqn:Em.
+  - exists (union_sorted [] (fold_left union_sorted (filter (fun g0 => meets g0 r) adj) r)). split.
+    + apply place_puts. exists g. auto.
+    + apply In_union. right. apply In_fold_union. right. exists g. split; auto. apply filter_In. auto.
+  - exists g. split; auto. apply place_keeps; auto. Qed.
+Theorem update_adjacent_fold_covers m rs : forall adj, covers m adj -> covers m (fold_left update_adjacent rs adj).
+Proof. induction rs as [|r t IH]; intros adj H; simpl. exact H. apply IH. apply update_adjacent_covers. exact H. Qed.
+(* the modes of the component end up together in one group, with every group they touched *)
+Theorem update_adjacent_groups adj r : (exists g, In g adj /\ meets g r = true) ->
+  exists G, In G (update_adjacent adj r) /\ (forall x, In x r -> In x G) /\
+            (forall g x, In g adj -> meets g r = true -> In x g -> In x G).
+Proof. intros Hex. exists (union_sorted [] (fold_left union_sorted (filter (fun g0 => meets g0 r) adj) r)).
+  split. apply place_puts. exact Hex. split.
+  - intros x Hx. apply In_union. right. apply In_fold_union. left. exact Hx.
+  - intros g x Hg Hm Hx. apply In_union. right. apply In_fold_union. right. exists g. split; auto. apply filter_In. auto. Qed.
+Lemma covers_init m : covers m (map (fun j => [j]) (seq 0 m)).
+Proof. intros k Hk. exists [k]. split. apply in_map_iff. exists k. split; auto. apply in_seq. lia. left. reflexivity. Qed.
+
 (* ---------------------------------------------------------------- rules, any ring, any size *)
 Section Rules.
 Variable R : cring.
